@@ -40,14 +40,18 @@ structure Variant where
   hintSafe : Bool
   /-- the select loop saves `pos->prev` before `call_handlers` (F10 repaired; not part of C10) -/
   savePrev : Bool
+  /-- MHD_update_last_activity_, resume_suspended_connections and new_connection_process_ put the
+      connection they have just stamped with the current time at its sorted position of the normal list
+      instead of the head (F11e repaired: the head is the wrong place after a backward clock jump) -/
+  actSorted : Bool
   deriving DecidableEq, Repr
 
 def Variant.current : Variant :=
   ⟨Mhd.Gen.Tmo.optSortedInsert, Mhd.Gen.Tmo.optWhileSuspended, Mhd.Gen.Tmo.stampAtProcess,
-   Mhd.Gen.Tmo.hintCmpSafe, Mhd.Gen.Tmo.selectSavesPrev⟩
+   Mhd.Gen.Tmo.hintCmpSafe, Mhd.Gen.Tmo.selectSavesPrev, Mhd.Gen.Tmo.actSortedInsert⟩
 
 /-- the pinned tree before any C10 repair -/
-def Variant.asIs : Variant := ⟨false, false, false, false, false⟩
+def Variant.asIs : Variant := ⟨false, false, false, false, false, false⟩
 
 /-- What the client has sent so far: nothing, a POST head plus body bytes (the handler has been
     called: `client_aware`), or a fragment of a request line (handler never called). -/
@@ -98,6 +102,9 @@ inductive Event
 structure Daemon where
   cfg : Cfg
   now : Nat
+  /-- GHOST (not part of the C state, read by no model function, written by the two clock operations
+      only): how far the clock is behind the highest value it has shown so far -/
+  back : Nat := 0
   c : Id → Conn
   used : List Id := []
   /-- `new_connections` DLL -/
@@ -166,6 +173,12 @@ def insSorted (la : Id → Nat) : List Id → Id → List Id
   | [], i => [i]
   | j :: t, i => if la j > la i then j :: insSorted la t i else i :: j :: t
 
+/-- where a connection that has just been stamped with the current time enters the normal list:
+    the head (`XDLL_insert`) or, repaired, its sorted position — the same place unless the clock has
+    jumped back -/
+def stampIns (v : Variant) (la : Id → Nat) (l : List Id) (i : Id) : List Id :=
+  if v.actSorted then insSorted la l i else i :: l
+
 def Daemon.remNormal (d : Daemon) (i : Id) : Daemon :=
   if i ∈ d.normal then { d with normal := d.normal.erase i } else { d with fault := true }
 
@@ -184,14 +197,14 @@ def Daemon.remTimeout (d : Daemon) (i : Id) : Daemon :=
   if (d.c i).tmo = d.cfg.dtmo then d.remNormal i else d.remManual i
 
 /-- `if (… == …) XDLL_insert (normal…) else XDLL_insert (manual…)` -/
-def Daemon.insTimeout (d : Daemon) (i : Id) : Daemon :=
-  if (d.c i).tmo = d.cfg.dtmo then { d with normal := i :: d.normal }
+def Daemon.insTimeout (v : Variant) (d : Daemon) (i : Id) : Daemon :=
+  if (d.c i).tmo = d.cfg.dtmo then { d with normal := stampIns v d.la d.normal i }
   else { d with manual := i :: d.manual }
 
 /-! ### API-level operations -/
 
 /-- `MHD_update_last_activity_` -/
-def updateLastActivity (d : Daemon) (i : Id) : Daemon :=
+def updateLastActivity (v : Variant) (d : Daemon) (i : Id) : Daemon :=
   let c := d.c i
   if c.tmo = 0 then d
   else if c.suspended then d
@@ -200,7 +213,7 @@ def updateLastActivity (d : Daemon) (i : Id) : Daemon :=
     if c.tmo ≠ d.cfg.dtmo then d1
     else
       let d2 := d1.remNormal i
-      { d2 with normal := i :: d2.normal }
+      { d2 with normal := stampIns v d2.la d2.normal i }
 
 /-- `MHD_set_connection_option (c, MHD_CONNECTION_OPTION_TIMEOUT, s)`:
     `if (0 == timeout) last_activity = now;` then, unless suspended, remove from the list chosen by the
@@ -238,7 +251,7 @@ def resumeRequest (d : Daemon) (i : Id) : Daemon :=
 /-- body of the loop of `resume_suspended_connections` for `pos = i` (no upgrade handles here):
     out of the suspended list, flag cleared, timer restarted, into `connections` and the timeout
     list that matches, and (epoll) marked ready and queued in `eready` -/
-def resumeOne (d : Daemon) (i : Id) : Daemon :=
+def resumeOne (v : Variant) (d : Daemon) (i : Id) : Daemon :=
   let c := d.c i
   if c.resuming = false then d
   else
@@ -247,13 +260,13 @@ def resumeOne (d : Daemon) (i : Id) : Daemon :=
     let c' := { c with suspended := false, la := la', resuming := false,
                        readReady := if d.cfg.epoll then true else c.readReady }
     let d2 := { (d1.set i c') with conns := i :: d1.conns }
-    let d3 := d2.insTimeout i
+    let d3 := d2.insTimeout v i
     if d.cfg.epoll then { d3 with eready := i :: d3.eready } else d3
 
 /-- `resume_suspended_connections`: from the tail of the suspended list -/
-def resumeSuspended (d : Daemon) : Daemon :=
+def resumeSuspended (v : Variant) (d : Daemon) : Daemon :=
   let l := if d.resuming then d.susp.reverse else []
-  l.foldl resumeOne { d with resuming := false }
+  l.foldl (resumeOne v) { d with resuming := false }
 
 /-- `MHD_add_connection` on a thread-safe daemon: `new_connection_prepare_` + queueing -/
 def arrive (d : Daemon) (i : Id) : Daemon :=
@@ -265,7 +278,8 @@ def processOneNew (v : Variant) (d : Daemon) (i : Id) : Daemon :=
   let c := d.c i
   let la' := if v.stampNew ∧ c.tmo ≠ 0 then d.now else c.la
   let c' := { c with la := la', inSet := if d.cfg.epoll then true else c.inSet }
-  let d1 := { (d.set i c') with conns := i :: d.conns, normal := i :: d.normal }
+  let d0 := d.set i c'
+  let d1 := { d0 with conns := i :: d.conns, normal := stampIns v d0.la d.normal i }
   if d.cfg.epoll then { d1 with kq := d1.kq ++ [i] } else d1
 
 /-- `new_connections_list_process_`: FIFO, i.e. from the tail of the queue -/
